@@ -67,12 +67,13 @@ PROPS = {
 }
 
 PROPS["C12"] = {
-    "rules": ["R-FALLIBLE-THREAD", "R-FALLIBLE-NOPANIC", "R-ERR-CLEAN", "R-INFALLIBLE", "R-WINDOW"],
+    "rules": ["R-FALLIBLE-THREAD", "R-FALLIBLE-NOPANIC", "R-ERR-CLEAN", "R-INFALLIBLE", "R-WINDOW", "R-ARITH", "R-LAYOUT-SOURCE"],
     "level": "other",
     "decided": "the public try_reserve passes Fallible and every function of the reservation call tree threads its own fallibility parameter unchanged down to the allocator call (R-FALLIBLE-THREAD); "
                "no explicit panic site is reachable from try_reserve outside debug assertions and the Infallible arms (R-FALLIBLE-NOPANIC, 69 bodies); "
                "every error exit of the call tree precedes the first write to the caller's table and follows no successful allocation, so on error contents, len and allocation are as before and nothing leaks (R-ERR-CLEAN); "
-               "errors arise only from Fallibility::{capacity_overflow, alloc_err} (R-INFALLIBLE); the new table is fully built under a guard before the old one is touched (R-WINDOW on resize_inner)",
+               "errors arise only from Fallibility::{capacity_overflow, alloc_err} (R-INFALLIBLE); the new table is fully built under a guard before the old one is touched (R-WINDOW on resize_inner); "
+               "it never asks the allocator for an invalid layout: size arithmetic is checked and the only Layout ever passed is the guarded one (R-ARITH, R-LAYOUT-SOURCE)",
     "not_decided": "the numeric post-condition capacity() >= len()+additional on success; that the arithmetic guards compute the right bounds (see C17)",
 }
 
